@@ -336,6 +336,8 @@ def nest_bucket(path: tuple[int, ...], loops: dict[int, dict[str, Any]]) -> str:
         for v in loops[k]["via"]:
             if v not in via:
                 via.append(v)
+    if "super" in via:
+        via = ["super"]  # block.super renders the parent block in the base context: the suspicious boundary
     if len(cs) == 1:
         return f"single-{cs[0]}"
     return f"for-[{'+'.join(via) if via else 'direct'}]-{cs[-1]}"
